@@ -12,6 +12,16 @@
      shift_ev L e    e with time + L;   shift_song L s = the current track's pointer + L (nothing else)
      shifted L n s s'   s' is s moved by L: see C14_shifted_means
      exec_with ec fuel toks = exec() with `ec` running the children of blocks (exec_f (S d) k = exec_with (exec_f d k) k)
+   Vocabulary (ShiftRsvP.v, the law with reservations):
+     rshift d n st k   the track record of model/Reserve.v moved by d: pointer + d, the events beyond the first n with
+                       time + d, v_on_time_start = st, every other field as in k (C14_rshift_means);
+     rstart_ok d st k  st = v_on_time_start k + d whenever a v.onTime ramp is pending (the field is dead otherwise: the code
+                       leaves -1 there when the ramp is over);   shift_rtrack d k = rshift d 0 (v_on_time_start k + d) k
+     shiftable_r t     shiftable, or one of the reservation commands (x.Random, x.onNote / x.onCycle, v.onTime, controller
+                       .onTime / .onNote / .onNoteWave / .Frequency, PB.onTime / p.onTime, Cresc / Decresc); blocks of such
+                       (every token of `shiftable` - text metas, Port, TempoChange, SysEx ... included: C14_shift_r_extends)
+     shifted_r L n s s'   `shifted` without "nothing is reserved on the track": see C14_shifted_r_means
+     calm_r s          calm, but any reservation may be pending EXCEPT a v.onTime ramp
    Vocabulary (PlayFromP.v): retime tp e = e with time - tp; kept tp e = (NoteOn|Voice|CC|Meta|SysEx) at or after tp;
      chan_of e = the channel of e as the writer sends it (0..15; the channel field itself when that is 0..15: C14_playfrom_channel);
      latest_cc_ev tp ch no evs / latest_voice_ev tp ch evs = the LAST controller-`no` / program event ON CHANNEL ch of the
@@ -19,7 +29,8 @@
      in time (C14_playfrom_latest_in_time); pf_early / pf_restored / pf_kept = the three segments of the result;
      pf_restored = pf_restored_cc ++ pf_restored_voice, both PER CHANNEL (a track may use several channels). *)
 From Sakura.Model Require Import Base Cursor Length Event Writer Song Token LoopMachine LexCore RunCore Tie Compile.
-From Sakura.Proofs Require Import SortP TimeP PlayFromP.
+From Sakura.Proofs Require Import SortP TimeP PlayFromP ShiftRsvP.
+From Sakura.Model Require Reserve RunRsv.
 From Coq Require Import Sorted.
 Open Scope Z_scope.
 
@@ -178,6 +189,161 @@ Theorem C14_rest_shift_fold : forall (d steps : nat) (p : list tok) (s : song) (
 Proof.
   intros d steps p s len L Hp Hs.
   exact (rest_shift_fold (exec_f d steps) p s len (exec_f_shift L _ steps d) Hp Hs).
+Qed.
+
+(* ================================================================================================ *)
+(* the time-translation law WITH reservations                                                        *)
+
+(* (1) the Track methods of song.rs (model/Reserve.v) on the track moved by d.  d is ANY integer. *)
+
+(* the moved track, field by field *)
+Theorem C14_rshift_means : forall (d : Z) (n : nat) (st : Z) (k : Reserve.track),
+  Reserve.tr_timepos (rshift d n st k) = Reserve.tr_timepos k + d /\
+  Reserve.tr_events (rshift d n st k)
+    = firstn n (Reserve.tr_events k) ++ map (shift_ev d) (skipn n (Reserve.tr_events k)) /\
+  Reserve.tr_v_on_time_start (rshift d n st k) = st /\
+  Reserve.set_v_on_time (Reserve.set_events (Reserve.set_timepos (rshift d n st k) 0) []) (Reserve.tr_v_on_time k) 0
+    = Reserve.set_v_on_time (Reserve.set_events (Reserve.set_timepos k 0) []) (Reserve.tr_v_on_time k) 0.
+Proof. intros d n st k. repeat split. Qed.
+
+(* controller ramps (y.onTime, M.onTime, Fadein, Cresc, ...) and bend ramps (PB.onTime / p.onTime): the events appended
+   are those of the unmoved track with time + d - same number, same order, same values (the value is a function of the
+   offset j from the ramp's start and the thinning is `j % freq`, not the absolute tick) *)
+Theorem C14_rsv_cc_ramp_shift : forall (d : Z) (n : nat) (st : Z) (k : Reserve.track) (cc : Z) (ia : list Z),
+  (n <= length (Reserve.tr_events k))%nat ->
+  Reserve.write_cc_on_time (rshift d n st k) cc ia = rshift d n st (Reserve.write_cc_on_time k cc ia).
+Proof. exact write_cc_on_time_shift. Qed.
+
+Theorem C14_rsv_pb_ramp_shift : forall (d : Z) (n : nat) (st : Z) (k : Reserve.track) (big : Z) (ia : list Z) (tb : Z),
+  (n <= length (Reserve.tr_events k))%nat ->
+  Reserve.write_pb_on_time (rshift d n st k) big ia tb = rshift d n st (Reserve.write_pb_on_time k big ia tb).
+Proof. exact write_pb_on_time_shift. Qed.
+
+(* the same, spelled out on the events *)
+Theorem C14_rsv_ramp_events : forall (d : Z) (k : Reserve.track) (cc : Z) (ia : list Z),
+  exists E, Reserve.tr_events (Reserve.write_cc_on_time k cc ia) = Reserve.tr_events k ++ E /\
+    Reserve.tr_events (Reserve.write_cc_on_time (shift_rtrack d k) cc ia)
+    = map (shift_ev d) (Reserve.tr_events k) ++ map (shift_ev d) E.
+Proof. exact write_cc_on_time_events. Qed.
+
+(* v.onTime: calc_v_on_time reads pointer - start, so the value is the same; the track afterwards is the moved one
+   (when the ramp is over the start tick is -1 on both sides, and dead) *)
+Theorem C14_rsv_v_on_time_shift : forall (d : Z) (n : nat) (st : Z) (k : Reserve.track) (def : Z), rstart_ok d st k ->
+  exists st', Reserve.calc_v_on_time (rshift d n st k) def
+              = (fst (Reserve.calc_v_on_time k def), rshift d n st' (snd (Reserve.calc_v_on_time k def))) /\
+              rstart_ok d st' (snd (Reserve.calc_v_on_time k def)).
+Proof. exact calc_v_on_time_shift. Qed.
+
+(* v / q / t / o / l .onNote and .onCycle: no time involved *)
+Theorem C14_rsv_on_note_shift : forall (w : Reserve.which) (d : Z) (n : nat) (st : Z) (k : Reserve.track) (def : Z),
+  Reserve.calc_on_note w (rshift d n st k) def
+  = (fst (Reserve.calc_on_note w k def), rshift d n st (snd (Reserve.calc_on_note w k def))).
+Proof. exact calc_on_note_shift. Qed.
+
+(* the six calls of one note, in the order of exec_note: the same five values *)
+Theorem C14_rsv_note_values_shift : forall (d : Z) (n : nat) (st : Z) (k : Reserve.track) (v tm q : Z), rstart_ok d st k ->
+  exists st', RunRsv.rsv_on_note (rshift d n st k) v tm q
+              = (fst (RunRsv.rsv_on_note k v tm q), rshift d n st' (snd (RunRsv.rsv_on_note k v tm q))) /\
+              rstart_ok d st' (snd (RunRsv.rsv_on_note k v tm q)) /\
+              Reserve.tr_events (snd (RunRsv.rsv_on_note k v tm q)) = Reserve.tr_events k.
+Proof. exact rsv_on_note_shift. Qed.
+
+(* controller .onNote (one event at the note's start) and .onNoteWave (a ramp from the note's start) *)
+Theorem C14_rsv_cc_on_note_shift : forall (d : Z) (n : nat) (st : Z) (k : Reserve.track) (sp : Z),
+  (n <= length (Reserve.tr_events k))%nat ->
+  Reserve.write_cc_on_note (rshift d n st k) (sp + d) = rshift d n st (Reserve.write_cc_on_note k sp) /\
+  Reserve.write_cc_on_note_wave (rshift d n st k) (sp + d) = rshift d n st (Reserve.write_cc_on_note_wave k sp).
+Proof. intros d n st k sp H. exact (conj (write_cc_on_note_shift d n st k sp H) (write_cc_on_note_wave_shift d n st k sp H)). Qed.
+
+(* setting / removing reservations and the frequency: nothing to move.  (x.Random: Song::calc_rand_value is a function
+   of the seed, the value and the width - no track, no tick; the seed is a global register, equal in related states.) *)
+Theorem C14_rsv_setters_shift : forall (d : Z) (n : nat) (st : Z) (k : Reserve.track) (no : Z) (ia : list Z) (f : Z),
+  Reserve.remove_cc_on (rshift d n st k) no = rshift d n st (Reserve.remove_cc_on k no) /\
+  Reserve.remove_cc_on_note_wave (rshift d n st k) no = rshift d n st (Reserve.remove_cc_on_note_wave k no) /\
+  Reserve.set_cc_on_note (rshift d n st k) no ia = rshift d n st (Reserve.set_cc_on_note k no ia) /\
+  Reserve.set_cc_on_note_wave (rshift d n st k) no ia = rshift d n st (Reserve.set_cc_on_note_wave k no ia) /\
+  Reserve.set_freq (rshift d n st k) f = rshift d n st (Reserve.set_freq k f).
+Proof. intros d n st k no ia f. repeat split. Qed.
+
+(* (2) the interpreter.  What "s' is s moved by L" means when reservations may be pending: as C14_shifted_means, and the
+   reservation state of the track is the same except that the start tick of a PENDING v.onTime ramp is L later; the
+   random seed (a global register) is the same *)
+Theorem C14_shifted_r_means : forall (L : Z) (n : nat) (s s' : song), shifted_r L n s s' ->
+  tr_timepos (cur_track s') = tr_timepos (cur_track s) + L /\
+  tr_events (cur_track s') = firstn n (tr_events (cur_track s)) ++ map (shift_ev L) (skipn n (tr_events (cur_track s))) /\
+  (rv_v_on_time (tr_rsv (cur_track s)) <> None ->
+   rv_v_on_time_start (tr_rsv (cur_track s')) = rv_v_on_time_start (tr_rsv (cur_track s)) + L) /\
+  rsv_set_start (tr_rsv (cur_track s')) 0 = rsv_set_start (tr_rsv (cur_track s)) 0 /\
+  tr_set_rsv (tr_set_events (tr_set_timepos (cur_track s') 0) []) rsv_new
+    = tr_set_rsv (tr_set_events (tr_set_timepos (cur_track s) 0) []) rsv_new /\
+  length (s_tracks s') = length (s_tracks s) /\
+  (forall i, i <> s_cur s -> nth i (s_tracks s') (track_new 0 0) = nth i (s_tracks s) (track_new 0 0)) /\
+  s_set_harmony_events (s_set_harmony_time (s_set_tracks s' []) 0) [] = s_set_harmony_events (s_set_harmony_time (s_set_tracks s []) 0) [] /\
+  s_harmony_events s' = map (shift_ev L) (s_harmony_events s) /\
+  (s_harmony_flag s = true -> s_harmony_time s' = s_harmony_time s + L).
+Proof. exact shifted_r_unpack. Qed.
+
+(* rsv_set_start r st = r with v_on_time_start := st *)
+Theorem C14_rsv_set_start_means : forall (r : rsv) (st : Z),
+  rsv_set_start r st = mkRsv st (rv_v_on_time r) (rv_v r) (rv_q r) (rv_t r) (rv_o r) (rv_l r) (rv_freq r) (rv_cc_on_note r)
+                             (rv_cc_on_note_wave r) (rv_v_rand r) (rv_q_rand r) (rv_t_rand r) (rv_o_rand r).
+Proof. reflexivity. Qed.
+
+(* the extension is conservative: the relation, the fragment and the start condition of the law without reservations
+   are special cases *)
+Theorem C14_shift_r_extends :
+  (forall (L : Z) (n : nat) (s s' : song), shifted L n s s' -> shifted_r L n s s') /\
+  (forall t : tok, shiftable t = true -> shiftable_r t = true) /\
+  (forall s : song, calm s -> calm_r s) /\
+  (forall (w : Reserve.which) (z : Z) (b : bool) (ia len : list Z),
+     shiftable_r (TRandom w z) = true /\ shiftable_r (TOnNote w b ia) = true /\ shiftable_r (TVOnTime ia) = true /\
+     shiftable_r (TCCOnTime z ia) = true /\ shiftable_r (TCCOnNote z ia) = true /\ shiftable_r (TCCOnNoteWave z ia) = true /\
+     shiftable_r (TCCFreq z) = true /\ shiftable_r (TPBOnTime z ia) = true /\ shiftable_r (TDecresc len z z) = true).
+Proof.
+  split; [exact shifted_is_shifted_r|]. split; [exact shiftable_is_shiftable_r|]. split; [exact calm_is_calm_r|].
+  intros w z b ia len. repeat split.
+Qed.
+
+(* one token - every arm of the note language on a track WITH reservations, and every reservation arm *)
+Theorem C14_step_shift_reservations : forall (L : Z) (n : nat) (ec : list tok -> res song -> res song) (t : tok) (r r' : res song),
+  respects_r L n ec -> shiftable_r t = true -> shifted_r_res L n r r' ->
+  shifted_r_res L n (step_tok ec t r) (step_tok ec t r').
+Proof. intros L n ec t r r' H. exact (step_tok_shift_r L n ec H t r r'). Qed.
+
+Theorem C14_exec_respects_reservations : forall (L : Z) (n : nat) (steps d : nat) (X : list tok) (r r' : res song),
+  forallb shiftable_r X = true -> shifted_r_res L n r r' -> shifted_r_res L n (exec_f d steps X r) (exec_f d steps X r').
+Proof. intros L n steps d. exact (exec_f_shift_r L n steps d). Qed.
+
+(* THE LAW with reservations: from a state with no v.onTime ramp pending (anything else may be reserved), a program of
+   the fragment started L ticks later does the same L ticks later: the same values, the same seed, equal errors *)
+Theorem C14_shift_law_reservations : forall (d steps : nat) (p : list tok) (s : song) (L : Z),
+  forallb shiftable_r p = true -> calm_r s ->
+  shifted_r_res L (length (tr_events (cur_track s)))
+    (exec_f (S d) steps p (Ok s)) (exec_f (S d) steps p (Ok (shift_song L s))).
+Proof.
+  intros d steps p s L Hp Hs. rewrite !exec_f_with.
+  exact (shift_law_r (exec_f d steps) steps p s L (exec_f_shift_r L _ steps d) Hp Hs).
+Qed.
+
+Theorem C14_rest_shift_reservations : forall (d steps fuel : nat) (p : list tok) (s : song) (len : list Z),
+  let L := calc_length len (s_timebase s) (tr_length (cur_track s)) in
+  forallb shiftable_r p = true -> calm_r s -> s_break_flag s = 0 ->
+  shifted_r_res L (length (tr_events (cur_track s)))
+    (exec_with (exec_f d steps) fuel p (Ok s))
+    (exec_with (exec_f d steps) (S fuel) (TRest 1 len :: p) (Ok s)).
+Proof.
+  intros d steps fuel p s len L Hp Hs Hb.
+  exact (rest_shift_r (exec_f d steps) fuel p s len (exec_f_shift_r L _ steps d) Hp Hs Hb).
+Qed.
+
+Theorem C14_rest_shift_fold_reservations : forall (d steps : nat) (p : list tok) (s : song) (len : list Z),
+  let L := calc_length len (s_timebase s) (tr_length (cur_track s)) in
+  forallb shiftable_r p = true -> calm_r s ->
+  shifted_r_res L (length (tr_events (cur_track s)))
+    (run_toks (exec_f d steps) p (Ok s)) (run_toks (exec_f d steps) (TRest 1 len :: p) (Ok s)).
+Proof.
+  intros d steps p s len L Hp Hs.
+  exact (rest_shift_fold_r (exec_f d steps) p s len (exec_f_shift_r L _ steps d) Hp Hs).
 Qed.
 
 (* ================================================================================================ *)
@@ -420,6 +586,115 @@ Example C14_example_playfrom_corners :
     = [ev_cc 0 0 7 50; ev_voice 0 15 4; ev_note 0 0 62 86 100].
 Proof. vm_compute. repeat split. Qed.
 
+(* ---- the law with reservations ---- *)
+(* the code points of   EP.onTime(0,127,!8) l4 c d   and the tokens the model's lexer makes of them *)
+Definition ex14_ramp_src : list Z :=
+  [69; 80; 46; 111; 110; 84; 105; 109; 101; 40; 48; 44; 49; 50; 55; 44; 33; 56; 41; 32; 108; 52; 32; 99; 32; 100].
+Definition ex14_e4 := TNote 4 0 0 [] 0 (-1) ISIZE_MIN (-1) 0.
+Definition ex14_d := TNote 2 0 0 [] 0 (-1) ISIZE_MIN (-1) 0.
+Definition ex14_ramp_p := [TLineNo 0; TCCOnTime 11 [0; 127; 48]; TLength [52]; ex14_c; ex14_d].
+Definition ex14_cc (e : event) := (e_time e, e_v1 e, e_v2 e).
+
+(* r%6 in front: the twelve expression events of the ramp (every 4th tick of 48) and the two notes are 6 ticks later,
+   with the same values; the program is outside the fragment of C14_rest_shift and inside that of
+   C14_rest_shift_reservations *)
+Example C14_example_ramp_shift :
+  (match lex (ls_of_song song_new) ex14_ramp_src 0 with Ok (t, _) => Some t | _ => None end) = Some ex14_ramp_p /\
+  forallb shiftable ex14_ramp_p = false /\ forallb shiftable_r ex14_ramp_p = true /\ calm_r song_new /\ s_break_flag song_new = 0 /\
+  calc_length [37; 54] 96 96 = 6 /\                                               (* r%6 *)
+  exists s1 s2, exec_with (exec_f 3 100) 100 ex14_ramp_p (Ok song_new) = Ok s1 /\
+                exec_with (exec_f 3 100) 101 (TRest 1 [37; 54] :: ex14_ramp_p) (Ok song_new) = Ok s2 /\
+    map ex14_cc (tr_events (cur_track s1))
+      = [(0, 11, 0); (4, 11, 10); (8, 11, 21); (12, 11, 31); (16, 11, 42); (20, 11, 52); (24, 11, 63); (28, 11, 74);
+         (32, 11, 84); (36, 11, 95); (40, 11, 105); (44, 11, 116); (0, 60, 86); (96, 62, 86)] /\
+    map ex14_cc (tr_events (cur_track s2))
+      = [(6, 11, 0); (10, 11, 10); (14, 11, 21); (18, 11, 31); (22, 11, 42); (26, 11, 52); (30, 11, 63); (34, 11, 74);
+         (38, 11, 84); (42, 11, 95); (46, 11, 105); (50, 11, 116); (6, 60, 86); (102, 62, 86)] /\
+    tr_events (cur_track s2) = map (shift_ev 6) (tr_events (cur_track s1)) /\
+    tr_timepos (cur_track s1) = 192 /\ tr_timepos (cur_track s2) = 198.
+Proof.
+  split; [vm_compute; reflexivity|]. split; [reflexivity|]. split; [reflexivity|].
+  split; [repeat split; vm_compute; lia|]. split; [reflexivity|]. split; [vm_compute; reflexivity|].
+  eexists. eexists. split; [vm_compute; reflexivity|]. split; [vm_compute; reflexivity|]. vm_compute. repeat split.
+Qed.
+
+(* every reservation arm in one program:
+     v.onTime(40,100,!2) q.onNote(50,90) M.onNoteWave(0,127,!8) y10.onNote(0,64,127) v.Random(6) M.Frequency(3)
+     PB.onTime(-100,3000,!8) Cresc=4,20,100 l4 c d [2 e] 'ce' Sub{ r4 EP.onTime(127,0,!4) } n60 *)
+Definition ex14_rsv_src : list Z :=
+  [118; 46; 111; 110; 84; 105; 109; 101; 40; 52; 48; 44; 49; 48; 48; 44; 33; 50; 41; 32; 113; 46; 111; 110; 78; 111; 116; 101;
+   40; 53; 48; 44; 57; 48; 41; 32; 77; 46; 111; 110; 78; 111; 116; 101; 87; 97; 118; 101; 40; 48; 44; 49; 50; 55; 44; 33; 56; 41;
+   32; 121; 49; 48; 46; 111; 110; 78; 111; 116; 101; 40; 48; 44; 54; 52; 44; 49; 50; 55; 41; 32; 118; 46; 82; 97; 110; 100; 111;
+   109; 40; 54; 41; 32; 77; 46; 70; 114; 101; 113; 117; 101; 110; 99; 121; 40; 51; 41; 32; 80; 66; 46; 111; 110; 84; 105; 109;
+   101; 40; 45; 49; 48; 48; 44; 51; 48; 48; 48; 44; 33; 56; 41; 32; 67; 114; 101; 115; 99; 61; 52; 44; 50; 48; 44; 49; 48; 48; 32;
+   108; 52; 32; 99; 32; 100; 32; 91; 50; 32; 101; 93; 32; 39; 99; 101; 39; 32; 83; 117; 98; 123; 32; 114; 52; 32; 69; 80; 46; 111;
+   110; 84; 105; 109; 101; 40; 49; 50; 55; 44; 48; 44; 33; 52; 41; 32; 125; 32; 110; 54; 48].
+Definition ex14_rsv_p :=
+  [TLineNo 0; TVOnTime [40; 100; 192]; TOnNote Reserve.WQ false [50; 90]; TCCOnNoteWave 1 [0; 127; 48];
+   TCCOnNote 10 [0; 64; 127]; TRandom Reserve.WV 6; TCCFreq 3; TPBOnTime 1 [-100; 3000; 48]; TDecresc [52] 20 100;
+   TLength [52]; ex14_c; ex14_d; TLoopBegin 2; ex14_e4; TLoopEnd; THarmonyBegin; ex14_c; ex14_e4; THarmonyEnd [] (-1) None;
+   TSub [TLineNo 0; TRest 1 [52]; TCCOnTime 11 [127; 0; 96]]; TNoteN 60 [] 0 (-1) ISIZE_MIN 0].
+Definition ex14_note (e : event) := (e_time e, e_v1 e, e_v2 e, e_v3 e).
+Definition ex14_is (ty : etype) (e : event) := etype_eqb (e_type e) ty.
+
+(* 7 notes (velocities from the v.onTime ramp and the random draws, gates from q.onNote), 147 controller and 16 bend
+   events: all 6 ticks later, nothing else changed - the seed after the run included *)
+Example C14_example_reservations_shift :
+  (match lex (ls_of_song song_new) ex14_rsv_src 0 with Ok (t, _) => Some t | _ => None end) = Some ex14_rsv_p /\
+  forallb shiftable ex14_rsv_p = false /\ forallb shiftable_r ex14_rsv_p = true /\
+  exists s1 s2, exec_with (exec_f 3 100) 100 ex14_rsv_p (Ok song_new) = Ok s1 /\
+                exec_with (exec_f 3 100) 101 (TRest 1 [37; 54] :: ex14_rsv_p) (Ok song_new) = Ok s2 /\
+    map ex14_note (filter (ex14_is NoteOn) (tr_events (cur_track s1)))
+      = [(0, 60, 48, 38); (96, 62, 86, 69); (192, 64, 86, 99); (288, 64, 86, 99); (384, 64, 86, 100); (384, 60, 86, 99);
+         (480, 60, 86, 102)] /\
+    map (fun ty => length (filter (ex14_is ty) (tr_events (cur_track s1)))) [NoteOn; ControllChange; PitchBend] = [7; 147; 16]%nat /\
+    tr_events (cur_track s2) = map (shift_ev 6) (tr_events (cur_track s1)) /\
+    tr_timepos (cur_track s1) = 576 /\ tr_timepos (cur_track s2) = 582 /\
+    tr_rsv (cur_track s2) = tr_rsv (cur_track s1) /\ s_rand_seed s2 = s_rand_seed s1 /\ s_rand_seed s1 = 3772669589.
+Proof.
+  split; [vm_compute; reflexivity|]. split; [reflexivity|]. split; [reflexivity|].
+  eexists. eexists. split; [vm_compute; reflexivity|]. split; [vm_compute; reflexivity|]. vm_compute. repeat split.
+Qed.
+
+(* the start condition of the law is needed: with a v.onTime ramp PENDING (v.onTime(0,127,!4) was executed before), a
+   rest in front of `c` is a rest inside the ramp - the note is read 6 ticks further into it (velocity 7, not 0) *)
+Example C14_example_pending_ramp_refuted :
+  exists s0 s1 s2, step_song (fun _ r => r) (TVOnTime [0; 127; 96]) song_new = Ok s0 /\
+    rv_v_on_time (tr_rsv (cur_track s0)) = Some [0; 127; 96] /\ ~ calm_r s0 /\
+    run_toks (fun _ r => r) [ex14_c] (Ok s0) = Ok s1 /\ run_toks (fun _ r => r) [TRest 1 [37; 54]; ex14_c] (Ok s0) = Ok s2 /\
+    map ex14_note (tr_events (cur_track s1)) = [(0, 60, 86, 0)] /\ map ex14_note (tr_events (cur_track s2)) = [(6, 60, 86, 7)] /\
+    ~ shifted_r 6 0 s1 s2.
+Proof.
+  eexists. eexists. eexists. split; [vm_compute; reflexivity|]. split; [reflexivity|].
+  split; [intros (_ & _ & _ & _ & H); vm_compute in H; discriminate H|].
+  split; [vm_compute; reflexivity|]. split; [vm_compute; reflexivity|]. split; [reflexivity|]. split; [reflexivity|].
+  intros H. apply shifted_r_unpack in H. destruct H as (_ & E & _). vm_compute in E. discriminate E.
+Qed.
+
+(* the law speaks of the interpreter's events.  In the FILE a start before tick 0 is written at tick 0, so with a
+   negative timing near the start of the track - here reserved:  t.onNote(-10) l4 c d  - the events are 6 ticks later
+   (-10, 86 -> -4, 92) but the first note-on of the file is at delta 0 with and without  r%6  in front (only its
+   note-off moves: 76 -> 82).  The file-level law needs "no event before tick 0" (tools/props/c14.py ASSUMES) *)
+Definition ex14_neg_src : list Z := [116; 46; 111; 110; 78; 111; 116; 101; 40; 45; 49; 48; 41; 32; 108; 52; 32; 99; 32; 100].
+Definition ex14_neg_p := [TLineNo 0; TOnNote Reserve.WT false [-10]; TLength [52]; ex14_c; ex14_d].
+Example C14_example_negative_timing_file_refuted :
+  (match lex (ls_of_song song_new) ex14_neg_src 0 with Ok (t, _) => Some t | _ => None end) = Some ex14_neg_p /\
+  forallb shiftable_r ex14_neg_p = true /\
+  (exists s1 s2, exec_with (exec_f 3 100) 100 ex14_neg_p (Ok song_new) = Ok s1 /\
+                 exec_with (exec_f 3 100) 101 (TRest 1 [37; 54] :: ex14_neg_p) (Ok song_new) = Ok s2 /\
+     map e_time (tr_events (cur_track s1)) = [-10; 86] /\ map e_time (tr_events (cur_track s2)) = [-4; 92]) /\
+  option_map fst (match compile ex14_neg_src with Ok r => Some r | _ => None end)
+  = Some [77; 84; 104; 100; 0; 0; 0; 6; 0; 1; 0; 1; 0; 96; 77; 84; 114; 107; 0; 0; 0; 20;
+          0; 144; 60; 100; 76; 128; 60; 100; 10; 144; 62; 100; 86; 128; 62; 100; 0; 255; 47; 0] /\
+  option_map fst (match compile ([114; 37; 54; 32] ++ ex14_neg_src) with Ok r => Some r | _ => None end)       (* r%6 ... *)
+  = Some [77; 84; 104; 100; 0; 0; 0; 6; 0; 1; 0; 1; 0; 96; 77; 84; 114; 107; 0; 0; 0; 20;
+          0; 144; 60; 100; 82; 128; 60; 100; 10; 144; 62; 100; 86; 128; 62; 100; 0; 255; 47; 0].
+Proof.
+  split; [vm_compute; reflexivity|]. split; [reflexivity|].
+  split; [eexists; eexists; split; [vm_compute; reflexivity|]; split; [vm_compute; reflexivity|]; vm_compute; split; reflexivity|].
+  split; vm_compute; reflexivity.
+Qed.
+
 Print Assumptions C14_time_formula.
 Print Assumptions C14_time_ticks.
 Print Assumptions C14_beat_exact.
@@ -457,3 +732,20 @@ Print Assumptions C14_playfrom_sorted_tick0.
 Print Assumptions C14_playfrom_sorted_order.
 Print Assumptions C14_playfrom_drops.
 Print Assumptions C14_playfrom_applied.
+Print Assumptions C14_rshift_means.
+Print Assumptions C14_rsv_cc_ramp_shift.
+Print Assumptions C14_rsv_pb_ramp_shift.
+Print Assumptions C14_rsv_ramp_events.
+Print Assumptions C14_rsv_v_on_time_shift.
+Print Assumptions C14_rsv_on_note_shift.
+Print Assumptions C14_rsv_note_values_shift.
+Print Assumptions C14_rsv_cc_on_note_shift.
+Print Assumptions C14_rsv_setters_shift.
+Print Assumptions C14_shifted_r_means.
+Print Assumptions C14_rsv_set_start_means.
+Print Assumptions C14_shift_r_extends.
+Print Assumptions C14_step_shift_reservations.
+Print Assumptions C14_exec_respects_reservations.
+Print Assumptions C14_shift_law_reservations.
+Print Assumptions C14_rest_shift_reservations.
+Print Assumptions C14_rest_shift_fold_reservations.
